@@ -21,6 +21,11 @@ CONSTANTS
     Preds,        \* predicate names for pred nodes
     Presets,      \* dictionaries usable as pre-set / default options
     MapPaths,     \* paths a Map may iterate over
+    Cbs,          \* dataset callbacks ("" = none)
+    EffSets,      \* effect chains (sequences of effect ids) a dataset may have
+    Caches,       \* cache kinds of datasets: "mem" (MemoryCache), "none" (NoCache)
+    MinNodes,     \* calls are made on graphs of at least this many nodes (>= 1)
+    BothPresets,  \* TRUE: a dataset may have pre-set AND default options at once
     Sharing,      \* TRUE: a node may be used by several parents (DAGs); FALSE: trees
     Leaves,       \* the dictionary universe: sequence of [p |-> path, vals |-> set of values]
     Family        \* name, for the export
@@ -30,7 +35,7 @@ Used == UNION {ChildrenOf(nodes[j]) : j \in E}
 Free == IF Sharing THEN E ELSE E \ Used      \* nodes that may still become a child
 OptFree == Free \cup {0}
 
-KindOf(i) == nodes[i].k
+KindOf(i) == IF i = 0 THEN "none" ELSE nodes[i].k
 IsScalarish(i) == KindOf(i) \in {"val", "opt", "tmpl", "apply", "fnapp", "ds", "cached", "switch", "bind", "case", "coalesce", "with"}
 
 Distinct(s) == \A i, j \in DOMAIN s : i # j => s[i] # s[j]
@@ -46,16 +51,16 @@ ParamNames(s) == {LET k == s[i].p[1] IN k : i \in {j \in 1 .. Len(s) : s[j].k = 
 ParamName(k) == IF k = ":p:" THEN "p" ELSE "q"
 
 Cands ==
-    (IF "val" \in Kinds THEN {[k |-> "val", v |-> c] : c \in Consts} ELSE {})
-    \cup (IF "opt" \in Kinds
+    (IF want = "val" THEN {[k |-> "val", v |-> c] : c \in Consts} ELSE {})
+    \cup (IF want = "opt"
           THEN {[k |-> "opt", p |-> p, d |-> d, dom |-> dm] :
                     p \in Paths, d \in OptFree,
                     dm \in {0} \cup {e \in Free : KindOf(e) = "pred" \/ (KindOf(e) = "val" /\ nodes[e].v.t = "l")}}
           ELSE {})
-    \cup (IF "pred" \in Kinds
+    \cup (IF want = "pred"
           THEN {[k |-> "pred", pred |-> pr, arg |-> a] : pr \in Preds, a \in {e \in Free : KindOf(e) \in {"val", "opt"}}}
           ELSE {})
-    \cup (IF "tmpl" \in Kinds
+    \cup (IF want = "tmpl"
           THEN UNION {{[k |-> "tmpl", s |-> s,
                         ps |-> IF ParamNames(s) = {} THEN <<>>
                                ELSE IF ParamNames(s) = {":p:"} THEN <<[name |-> "p", n |-> a]>>
@@ -63,39 +68,50 @@ Cands ==
                          a \in (IF ParamNames(s) = {} THEN {0} ELSE {e \in Free : KindOf(e) \in {"val", "opt"}}),
                          b \in (IF ":q:" \in ParamNames(s) THEN {e \in Free : KindOf(e) \in {"val", "opt"}} ELSE {0})} : s \in Tmpls}
           ELSE {})
-    \cup (IF "apply" \in Kinds THEN {[k |-> "apply", src |-> s, f |-> f] : s \in Free, f \in Fns} ELSE {})
-    \cup (IF "bind" \in Kinds
+    \cup (IF want = "apply" THEN {[k |-> "apply", src |-> s, f |-> f] : s \in Free, f \in Fns} ELSE {})
+    \cup (IF want = "bind"
           THEN {[k |-> "bind", src |-> s, lk |-> TableSeq(t), other |-> ot] : s \in Free, t \in Tables, ot \in OptFree}
           ELSE {})
-    \cup (IF "switch" \in Kinds
+    \cup (IF want = "switch"
           THEN {[k |-> "switch", d |-> s, lk |-> TableSeq(t), dflt |-> ot] : s \in Free, t \in Tables, ot \in OptFree}
           ELSE {})
-    \cup (IF "case" \in Kinds
+    \cup (IF want = "case"
           THEN {[k |-> "case", d |-> s, cases |-> <<[c |-> c1, n |-> n1]>>, dflt |-> ot] :
                     s \in Free, c1 \in {e \in Free : KindOf(e) = "pred"}, n1 \in Free, ot \in OptFree}
                \cup {[k |-> "case", d |-> s, cases |-> <<[c |-> c1, n |-> n1], [c |-> c2, n |-> n2]>>, dflt |-> 0] :
                     s \in Free, c1 \in {e \in Free : KindOf(e) = "pred"}, n1 \in Free,
                     c2 \in {e \in Free : KindOf(e) = "pred"}, n2 \in Free}
           ELSE {})
-    \cup (IF "coalesce" \in Kinds
+    \cup (IF want = "coalesce"
           THEN {[k |-> "coalesce", ms |-> <<a, b>>] : a \in Free, b \in Free}
                \cup {[k |-> "coalesce", ms |-> <<a, b, c>>] : a \in Free, b \in Free, c \in Free}
           ELSE {})
-    \cup (IF "coll" \in Kinds
+    \cup (IF want = "coll"
           THEN {[k |-> "coll", c |-> c, ms |-> <<a, b>>, names |-> <<"x", "y">>] :
                     c \in {"iter", "list", "tuple", "set", "dict"}, a \in Free, b \in Free}
                \cup {[k |-> "coll", c |-> "list", ms |-> <<a>>, names |-> <<"x">>] : a \in Free}
           ELSE {})
-    \cup (IF "map" \in Kinds
+    \cup (IF want = "map"
           THEN {[k |-> "map", inner |-> i, its |-> <<[p |-> p, n |-> a]>>] : i \in Free, p \in MapPaths, a \in Free}
                \cup {[k |-> "map", inner |-> i, its |-> <<[p |-> p, n |-> a], [p |-> q, n |-> b]>>] :
                         i \in Free, p \in MapPaths, q \in MapPaths, a \in Free, b \in Free}
           ELSE {})
-    \cup (IF "with" \in Kinds
+    \cup (IF want = "with"
           THEN {[k |-> "with", inner |-> i, q |-> q, force |-> f] : i \in Free, q \in Presets, f \in BOOLEAN}
           ELSE {})
-    \cup (IF "cached" \in Kinds THEN {[k |-> "cached", inner |-> i] : i \in Free} ELSE {})
-    \cup (IF "fnapp" \in Kinds
+    \cup (IF want = "cached" THEN {[k |-> "cached", inner |-> i] : i \in Free} ELSE {})
+    \cup (IF want = "ds"
+          THEN {[k |-> "ds", dflt |-> f, disp |-> dp, tab |-> IF dp = 0 THEN 0 ELSE Len(tabs) + 1,
+                 q |-> q, dd |-> dd, cb |-> cb, effs |-> ef, effoff |-> FALSE, cache |-> c] :
+                    f \in {e \in Free : KindOf(e) = "fnapp"} \cup (IF DispVals = <<>> THEN {} ELSE {0}),
+                    dp \in (IF DispVals = <<>> THEN {0} ELSE {0} \cup {e \in Free : KindOf(e) \in {"opt", "ds"}}),
+                    q \in Presets \cup {EmptyD}, dd \in Presets \cup {EmptyD}, cb \in Cbs, ef \in EffSets, c \in Caches}
+          ELSE {})
+    \cup (IF want = "dsof"
+          THEN {[k |-> "dsof", base |-> b, q2 |-> q, mode |-> m] :
+                    b \in {e \in E : KindOf(e) \in {"ds", "dsof"}}, q \in Presets, m \in {"force", "default"}}
+          ELSE {})
+    \cup (IF want = "fnapp"
           THEN {[k |-> "fnapp", f |-> f, args |-> <<>>] : f \in Bodies}
                \cup {[k |-> "fnapp", f |-> f, args |-> <<a>>] : f \in Bodies, a \in Free}
                \cup {[k |-> "fnapp", f |-> f, args |-> <<a, b>>] : f \in Bodies, a \in Free, b \in Free}
@@ -115,6 +131,7 @@ ChildSlots(nd) ==
       [] nd.k = "map" -> <<nd.inner>> \o [i \in 1 .. Len(nd.its) |-> nd.its[i].n]
       [] nd.k \in {"with", "cached"} -> <<nd.inner>>
       [] nd.k = "ds" -> <<nd.dflt, nd.disp>>
+      [] nd.k = "dsof" -> <<>>
       [] nd.k = "fnapp" -> nd.args
 
 NonZero(s) == LET RECURSIVE F(_) F(i) == IF i > Len(s) THEN <<>> ELSE (IF s[i] = 0 THEN <<>> ELSE <<s[i]>>) \o F(i + 1) IN F(1)
@@ -122,6 +139,7 @@ NonZero(s) == LET RECURSIVE F(_) F(i) == IF i > Len(s) THEN <<>> ELSE (IF s[i] =
 WellFormed(nd) ==
     /\ (~Sharing => Distinct(NonZero(ChildSlots(nd))))
     /\ (nd.k = "case" => Distinct(<<nd.d>> \o [i \in 1 .. Len(nd.cases) |-> nd.cases[i].n]))
+    /\ (nd.k = "ds" => (nd.dflt # 0 \/ nd.disp # 0) /\ (nd.q = EmptyD \/ nd.dd = EmptyD \/ (BothPresets /\ nd.q # nd.dd)))
     /\ (nd.k = "map" => Distinct([i \in 1 .. Len(nd.its) |-> nd.its[i].p]) /\ nd.inner \notin {nd.its[i].n : i \in 1 .. Len(nd.its)})
 
 \* the dictionaries: every *relevant* leaf of the universe is absent or takes one of its values.
@@ -147,8 +165,16 @@ DictsFor(ms) == DictsFrom(1, RelClosure(ms, 4))
 Dicts == DictsFor(Mentions(Root))
 
 MCNext ==
-    \/ \E nd \in Cands : WellFormed(nd) /\ Add(nd)
-    \/ nodes # <<>> /\ KindOf(Root) \in RootKinds /\ Complete /\ \E o \in Dicts : Observe(o)
+    \/ \E k \in Kinds : Choose(k)
+    \/ want # "none" /\ \E nd \in Cands : WellFormed(nd) /\ Add(nd)
+    \/ /\ phase = "build" /\ DispVals # <<>>
+       /\ \E d \in E, i \in 1 .. Len(DispVals), impl \in Free :
+             /\ nodes[d].k = "ds" /\ nodes[d].tab # 0 /\ impl # d /\ KindOf(impl) \in {"fnapp", "ds", "val", "opt"}
+             /\ ~(\E e \in 1 .. Len(tabs[nodes[d].tab]) : tabs[nodes[d].tab][e].v = DispVals[i])
+             /\ Register(d, DispVals[i], impl)
+    \/ Len(nodes) >= MinNodes /\ KindOf(Root) \in RootKinds /\ (RequireComplete => Complete) /\ cur = NoDict /\ want = "none"
+          /\ \E o \in Dicts : Pick(o)
+    \/ Observe
 
 MCSpec == LInit /\ [][MCNext]_lvars
 
@@ -157,24 +183,27 @@ MCView == labs
 -----------------------------------------------------------------------------
 (* Semantic invariants, checked on every (graph, dictionary) of the family *)
 
-AllObs(P(_, _)) == (nodes # <<>> /\ Complete) => \A o \in Dicts : P(Root, o)
+\* evaluated in the state where the dictionary of the next call has been picked: in exhaustive
+\* mode every (graph, dictionary) of the family passes through such a state, in simulation mode
+\* the sampled ones do
+AllObs(P(_, _)) == (cur # NoDict) => P(Root, cur)
 
 \* C03: keys() reports present keys only, and is sufficient
 KeysPresentOnlyAt(n, o) == LET k == KeysOf(n, o) IN k.ok => \A p \in k.ks : Has(p, o)
 KeysSufficientAt(n, o) ==
     LET k == KeysOf(n, o) IN
-    k.ok => LET r == Restrict(o, k.ks) IN
-            /\ Eval(n, r) = Eval(n, o)
-            /\ KeysOf(n, r) = k
+    (k.ok /\ ~Swallows(n, o)) => LET r == Restrict(o, k.ks) IN
+            ~Swallows(n, r) => /\ Eval(n, r) = Eval(n, o)
+                               /\ KeysOf(n, r) = k
 \* C10: validate passing guarantees no missing-option failure
-ValidateGuardsAt(n, o) == Validate(n, o).ok => LET e == Eval(n, o) IN e.ok \/ e.cls # "KeyNotFound"
+ValidateGuardsAt(n, o) == (Validate(n, o).ok /\ ~Swallows(n, o)) => LET e == Eval(n, o) IN e.ok \/ e.cls # "KeyNotFound"
 \* C10: keys and validate fail together for missing options
 \* C11: explain covers keys; absent explained keys are exactly what is missing
 \* C10: for total bodies and in-domain values, validate / keys / evaluate succeed or fail together
 Benign(r) == r.ok \/ r.cls \notin {"User", "Domain", "IllTyped"}
 AgreeAt(n, o) ==
     LET e == Eval(n, o) v == Validate(n, o) k == KeysOf(n, o) IN
-    (Benign(e) /\ Benign(v) /\ Benign(k)) => (e.ok = v.ok /\ v.ok = k.ok)
+    (Benign(e) /\ Benign(v) /\ Benign(k) /\ ~Swallows(n, o)) => (e.ok = v.ok /\ v.ok = k.ok)
 ExplainCoversKeysAt(n, o) ==
     LET x == Explain(n, o) k == KeysOf(n, o) IN (x.ok /\ k.ok) => k.ks \subseteq x.ks
 ExplainNamesMissingAt(n, o) ==
@@ -200,7 +229,7 @@ SK_all == {"val", "opt", "pred", "tmpl", "apply", "bind", "switch", "case", "coa
 SK_leafish == {"opt", "val", "pred", "fnapp", "tmpl"}
 SK_val == {"val"}  SK_opt == {"opt"}  SK_pred == {"pred"}  SK_tmpl == {"tmpl"}  SK_apply == {"apply"}  SK_bind == {"bind"}
 SK_switch == {"switch"}  SK_case == {"case"}  SK_coalesce == {"coalesce"}  SK_coll == {"coll"}  SK_map == {"map"}
-SK_with == {"with"}  SK_cached == {"cached"}  SK_ds == {"ds"}  SK_fnapp == {"fnapp"}
+SK_with == {"with"}  SK_dsof == {"dsof"}  SK_wrap == {"with", "ds", "dsof"}  SK_cached == {"cached"}  SK_ds == {"ds"}  SK_fnapp == {"fnapp"}
 None0 == {}
 NoSeq == <<>>
 
@@ -233,6 +262,43 @@ FC_MapPaths == {pA, pSX}
 FC_Leaves == <<[p |-> pA, vals |-> {I(0), I(1), Str("x"), Lv(<<I(0), I(1)>>)}, extra |-> FALSE],
                [p |-> pB, vals |-> {I(1), Str("x"), Lv(<<Str("x")>>)}, extra |-> FALSE],
                [p |-> pSX, vals |-> {I(1)}, extra |-> FALSE],
+               [p |-> <<"Z">>, vals |-> {I(7)}, extra |-> TRUE]>>
+
+\* family "presets" (C08): pre-set / default option wrappers and dataset options, nested
+NoCb == {""}
+NoEff == {<<>>}
+MemOnly == {"mem"}
+FP_Kinds == {"val", "opt", "with", "ds", "dsof", "fnapp", "coll"}
+FP_Paths == {pA, pSX, pSY, <<"S">>}
+FP_Consts == {I(5)}
+FP_Bodies == {"f"}
+FP_Presets == {Dv([k \in {"A"} |-> I(9)]),
+               Dv([k \in {"S"} |-> Dv([j \in {"X"} |-> I(8)])]),
+               Dv([k \in {"S", "A"} |-> IF k = "A" THEN I(7) ELSE Dv([j \in {"Y"} |-> I(6)])])}
+FP_Cbs == {"", "cb"}
+FP_Effs == {<<>>, <<"e1">>}
+FP_Leaves == <<[p |-> pA, vals |-> {I(0), I(1)}, extra |-> FALSE],
+               [p |-> pSX, vals |-> {I(1), I(2)}, extra |-> FALSE],
+               [p |-> pSY, vals |-> {I(0), I(3)}, extra |-> FALSE],
+               [p |-> <<"S", "W">>, vals |-> {I(4)}, extra |-> TRUE]>>
+
+\* family "caching" (C01, C02, C12, C16, C17): datasets / cached nodes over the combinators, DAGs
+FK_Kinds == {"val", "opt", "pred", "fnapp", "ds", "dsof", "cached", "switch", "case", "bind", "coalesce", "with", "coll", "map", "apply"}
+FK_Preds == {"eq"}
+FK_KindsB == {"opt", "fnapp", "ds", "cached", "with"}
+FK_Paths == {pA, pB, pSX, <<"S">>}
+FK_Consts == {I(1), Lv(<<I(0), I(1)>>)}
+FK_Fns == {"g"}
+FK_Bodies == {"f"}
+FK_Disp == <<I(1), Str("x")>>
+FK_Presets == {Dv([k \in {"A", "S"} |-> IF k = "A" THEN I(9) ELSE Dv([j \in {"X"} |-> I(8)])])}
+FK_Cbs == {"cb"}
+FK_Effs == {<<>>, <<"e1">>}
+FK_Caches == {"mem", "none"}
+FK_MapPaths == {pA, pSX}
+FK_Leaves == <<[p |-> pA, vals |-> {I(1), Str("x")}, extra |-> FALSE],
+               [p |-> pB, vals |-> {I(1), I(2)}, extra |-> FALSE],
+               [p |-> pSX, vals |-> {I(1), I(2)}, extra |-> FALSE],
                [p |-> <<"Z">>, vals |-> {I(7)}, extra |-> TRUE]>>
 
 -----------------------------------------------------------------------------
